@@ -1,6 +1,7 @@
 package checks
 
 import (
+	"bytes"
 	"errors"
 	"fmt"
 	"regexp"
@@ -24,7 +25,7 @@ func init() { register(c10{}) }
 func (c10) ID() string    { return "C10" }
 func (c10) Level() string { return "fault_enumeration" }
 func (c10) Rule() string {
-	return "packets of the C01 domain plus malformed-but-constructible ones (QoS 3, no filters, no topic, zero packet id, will QoS 3) x writers: succeeding; failing before writing (0,E); accepting only the first k bytes then (k,E) for EVERY k below the frame length when the frame is <= 256 bytes (boundary and log-spaced k above), and k = frame length (everything accepted, error reported all the same). Offline check of the recorded Write calls: bytes handed to the writer form exactly one frame (reference header parser), returned n = bytes accepted = frame length = 1+|remaining length field|+remaining length = N of String()'s 'N bytes'; with a failing writer the returned error is the writer's (errors.Is) and n the bytes it accepted; Undefined writes nothing and returns an error. distinct = (packet signature, writer script); non-trivial = optional field present or failing writer"
+	return "packets of the C01 domain plus malformed-but-constructible ones (QoS 3, no filters, no topic, zero packet id, will QoS 3) x writers: succeeding; re-entrant (the writer encodes other packets inside Write); failing before writing (0,E); accepting only the first k bytes then (k,E) for EVERY k below the frame length when the frame is <= 256 bytes (boundary and log-spaced k above), and k = frame length (everything accepted, error reported all the same). Offline check of the recorded Write calls: bytes handed to the writer form exactly one frame (reference header parser), returned n = bytes accepted = frame length = 1+|remaining length field|+remaining length = N of String()'s 'N bytes'; with a failing writer the returned error is the writer's (errors.Is) and n the bytes it accepted; Undefined writes nothing and returns an error. distinct = (packet signature, writer script); non-trivial = optional field present or failing writer"
 }
 func (c10) Assumptions() []string {
 	return []string{"writers obey io.Writer: a short write comes with a non-nil error", "string fields avoid the substring ' bytes' so that the size printed by String() parses unambiguously"}
@@ -170,6 +171,31 @@ func (c10) Run(c *run.Ctx, phase, idx int) {
 	}
 	if c.WantSample() && nontriv {
 		c.Sample(sampleOf(a, frame, map[string]interface{}{"twist": twist, "writer_scripts": "ok + (0,E) + every k"}))
+	}
+
+	// a writer that itself encodes other packets inside Write (a tee that
+	// logs, a multiplexer): the bytes it is handed must still be this frame
+	{
+		others := []mq.Packet{mq.Pub(1, "other/topic", "other payload"), mq.NewPubAck(), mq.NewConnect(), mq.NewSubscribe(), bind.New(int(a.Type))}
+		for oi, o := range others {
+			rw := mon.NewWriter()
+			rw.Inner = func() {
+				var sink bytes.Buffer
+				o.WriteTo(&sink)
+				_ = o.String()
+			}
+			var n2 int64
+			var err2 error
+			pan := mon.Guard(func() { n2, err2 = pkt.WriteTo(rw) })
+			c.Eval(1)
+			c.Distinct(h0^run.Hash64("reentrant-writer", itoa(oi), twist), true)
+			c.Count("writer", "reentrant", 1)
+			if pan != nil || err2 != nil || int(n2) != len(frame) || !bytes.Equal(rw.Buf, frame) {
+				c.Violation("C10/reentrant-writer/"+T, fmt.Sprintf("a writer that encodes a %T inside Write received other bytes than the frame (n=%d err=%v panic=%v)", o, n2, err2, pan != nil),
+					det(map[string]interface{}{"expected": hexClip(frame, 512), "received": hexClip(rw.Buf, 512)}))
+				break
+			}
+		}
 	}
 
 	// failing writers
